@@ -92,6 +92,18 @@ CLAIMED = {
         "Lean kernel + standard axioms; A-LA (lstsq/solve) tied by the correspondence.",
         "Lean 4 proof (sum of non-negative terms, WLS optimality) + differential correspondence",
         "DESIGN.md §7 C20"),
+    "C05": (
+        "Partial proof. Machine-checked (exact arithmetic, every input): a valid fast match has one selector entry per "
+        "peak, equally many indices and selected peaks, only peaks with elevation >= min_weight; selection <=> weight ok "
+        "and squared relaxed error < tolerance^2; exact lattice points are selected with their true indices; the returned "
+        "lattice is the weighted least-squares fit of the selected peaks (C06); parallel/zero start vectors and too few "
+        "matches give the invalid match; translation invariance of the indices; operators and source text of both rounds "
+        "pinned. NOT proved: the quantitative robustness window (start within ~1 px / 0.2 px, 0.3 px inliers kept, "
+        "half-cell outliers rejected) and rotation equivariance - decided by the differential oracle only.",
+        "Lean kernel + standard axioms; translator; A-LA; rank-deficient selections (minimum-norm lstsq) not modelled; the "
+        "robustness clause is checked with a reference re-implementation and preconditions derived from the selection formula.",
+        "Lean 4 proof (partial: invariants, selection rule, WLS result) + exact-rational differential correspondence of both rounds",
+        "DESIGN.md §7 C05"),
 }
 
 NOT_YET = {}
